@@ -58,14 +58,76 @@ theorem depth_le_length (k : Cls) (d : Nat) (r : Str) (h : r.length < d) :
   have g := primary_good k d r h
   cases hx : parsePrimary k d r <;> simp_all [Good]
 
-/-- the backward query parser (`QueryParser::parse`) inherits both -/
+/-- `str::strip_prefix` never panics: the offset `pat.len()` is a char boundary of every string that starts with `pat`
+(`find_plus_len_boundary` at offset 0) — for every pattern, also a multi-byte one -/
+theorem stripPrefix_no_panic (pat s : Str) : stripPrefixB pat s ≠ none := by
+  unfold stripPrefixB
+  split
+  · rename_i h
+    obtain ⟨r, rfl⟩ := List.isPrefixOf_iff_prefix.mp h
+    rw [sliceFrom_append]; simp
+  · simp
+
+/-- the NOT keyword of `QueryParser::parse` is cut off without a panic, whatever follows it -/
+theorem notPrefix_no_panic (t : Str) : ∃ p, notPrefix t = .ok p := by
+  unfold notPrefix
+  have h := stripPrefix_no_panic "NOT ".toList t
+  cases hs : stripPrefixB "NOT ".toList t with
+  | none => exact absurd hs h
+  | some o => cases o <;> simp
+
+/-- skipping the separator after NOT with a fixed byte offset is NOT safe once the separator is recognised by a character
+class: `NOT` + U+00A0 (two bytes, white space for `char::is_whitespace`) slices `[4..]` inside the character -/
+theorem notPrefixFixedOffset_counterexample :
+    notPrefixFixedOffset ⟨fun c => c == ' ' || c.toNat == 0xa0, fun _ => false, fun _ => false⟩
+      ("NOT".toList ++ [Char.ofNat 0xa0] ++ "X == 1".toList) = .panic := by
+  decide +kernel
+
+/-- the backward query parser (`QueryParser::parse`) inherits both, including the byte-level NOT handling -/
 theorem parseQuery_total (k : Cls) (s : Str) : parseQuery k s ≠ .panic ∧ parseQuery k s ≠ .oof := by
   unfold parseQuery
   split
   · simp
-  · simp only []
-    generalize (if "NOT ".toList.isPrefixOf (trim k s) = true then List.drop 4 (trim k s) else trim k s) = q
+  · obtain ⟨⟨neg, q⟩, hp⟩ := notPrefix_no_panic (trim k s)
+    rw [hp]
+    simp only []
     rcases parse_total k q with ⟨e, h⟩ | h <;> simp [h]
+
+/-- … and so does `QueryParser::validate` -/
+theorem validateQuery_total (k : Cls) (s : Str) : validateQuery k s ≠ .panic ∧ validateQuery k s ≠ .oof := by
+  unfold validateQuery
+  have := parseQuery_total k s
+  cases h : parseQuery k s <;> simp_all
+
+/-- the numeric attributes of a GRL query (`max-depth:`, `max-solutions:`): no digit run — however long — makes the
+extraction panic, and what it returns fits `usize`; a run beyond `usize::MAX` is ignored (the default is kept) -/
+theorem numAttr_no_panic (key input : Str) :
+    ∃ o, numAttr key input = .ok o ∧ ∀ n, o = some n → n ≤ 18446744073709551615 := by
+  unfold numAttr
+  cases findNumAttr key input with
+  | none => exact ⟨none, rfl, by simp⟩
+  | some ds =>
+    refine ⟨parseUsizeDigits ds, rfl, ?_⟩
+    intro n hn
+    unfold parseUsizeDigits at hn
+    simp only [] at hn
+    split at hn
+    · cases hn; assumption
+    · cases hn
+
+theorem grlQueryNums_no_panic (k : Cls) (s : Str) : ∃ p, grlQueryNums k s = .ok p := by
+  unfold grlQueryNums
+  obtain ⟨d, hd, _⟩ := numAttr_no_panic "max-depth".toList (trim k s)
+  obtain ⟨m, hm, _⟩ := numAttr_no_panic "max-solutions".toList (trim k s)
+  simp only [hd, hm]
+  exact ⟨_, rfl⟩
+
+/-- unwrapping the conversion instead (`parse().expect(..)`) panics on the first number above `usize::MAX` -/
+theorem numAttrUnwrap_counterexample :
+    numAttrUnwrap "max-depth".toList "max-depth: 18446744073709551616".toList = .panic
+    ∧ numAttr "max-depth".toList "max-depth: 18446744073709551616".toList = .ok none
+    ∧ numAttr "max-depth".toList "max-depth: 18446744073709551615".toList = .ok (some 18446744073709551615) := by
+  decide +kernel
 
 /-! ### (b) slicing kernels: `∀ s, f s ≠ panic` -/
 
